@@ -22,6 +22,7 @@ func main() {
 	replay := flag.String("replay", "", "replay file: re-decide only that obligation")
 	noEvidence := flag.Bool("no-evidence", false, "do not write the evidence file")
 	list := flag.Bool("list", false, "list properties")
+	seededJSON := flag.String("seeded-json", "", "results of the seeded-variant self-test (tools/mutants.py --json) to embed in the evidence")
 	describe := flag.Bool("describe", false, "print the properties' claim texts as JSON")
 	flag.Parse()
 	if *describe {
@@ -112,6 +113,33 @@ func main() {
 			}
 		}
 		out.Violations = keep
+	}
+	if *seededJSON != "" {
+		if b, err := os.ReadFile(*seededJSON); err == nil {
+			var rs []map[string]any
+			if json.Unmarshal(b, &rs) == nil {
+				det, tot, skipped := 0, 0, 0
+				var missed []string
+				for _, r := range rs {
+					switch r["status"] {
+					case "DETECTED":
+						det++
+						tot++
+					case "MISSED":
+						tot++
+						missed = append(missed, fmt.Sprint(r["id"]))
+					default:
+						skipped++
+					}
+				}
+				out.Extra["seeded_total"] = tot
+				out.Extra["seeded_detected"] = det
+				out.Extra["seeded_skipped_or_not_compiling"] = skipped
+				out.Extra["seeded_missed"] = missed
+				out.Extra["seeded_results"] = rs
+				out.Extra["seeded_note"] = "sensitivity self-test of the checker on single-edit variants of the CURRENT tree (scratch copies, deleted); describes the checker, never changes the exit code"
+			}
+		}
 	}
 	out.WallS = time.Since(start).Seconds()
 	if !*noEvidence {
